@@ -162,6 +162,16 @@ func c08CorpusRange(run *evid.Run, seed int64, from, to int, checkAll bool) []st
 		for k := 0; k < nr; k++ {
 			refs = append(refs, foreignCid(fmt.Sprintf("r%d.%d.%d", seed, i, k)))
 		}
+		// a tenth of the items name some links more than once (the constructor keeps the first occurrence of each)
+		repeated := false
+		if i%10 == 7 && nn >= 3 {
+			next = append(next, next[0], next[2], next[1], next[0])
+			repeated = true
+		}
+		if i%10 == 7 && nr >= 2 {
+			refs = append([]cid.Cid{refs[1]}, append(refs, refs[0])...)
+			repeated = true
+		}
 		ct := clockTimes[rng.Intn(len(clockTimes))]
 		var clk *entry.LamportClock
 		switch rng.Intn(4) {
@@ -189,6 +199,17 @@ func c08CorpusRange(run *evid.Run, seed int64, from, to int, checkAll bool) []st
 		}
 		out = append(out, label+" -> "+created.GetHash().String())
 		run.Count("entries_"+codec, 1)
+		if repeated {
+			// the same logical entry, created again from the same input, must get the same identifier and link order
+			run.Count("entries_with_repeated_links", 1)
+			for rep := 0; rep < 6; rep++ {
+				again, err := entry.CreateEntryWithIO(ctx, store.New().API(), ident, &entry.Entry{LogID: w.LogID, Payload: payload, Next: next, Refs: refs, Clock: src.Clock}, nil, io)
+				if err != nil || !again.GetHash().Equals(created.GetHash()) {
+					run.Violate("C08/nondeterministic", det("class", class, "repeated_links", true), wit(), "creating the same entry (link lists with repeated elements) again gave %v (err %v), first time %v", hashOf(again), err, created.GetHash())
+					break
+				}
+			}
+		}
 		if !checkAll {
 			continue
 		}
